@@ -83,6 +83,20 @@ theorem filter_id_live (reqs : List Req) (hids : reqs.Pairwise (fun a b => a.id 
     · have hne : a.id ≠ rq.id := hids.1 rq hm
       simp [List.filter_cons, hne, ih hids.2 hm]
 
+/-- `cancel` of an outstanding request errbacks exactly that request, at once (what the client layer's
+    synchronous `fired k (some .cancelled)` assumes) -/
+theorem cancel_fires_now (cfg : Cfg) (s : St) (h : SInv s) (rq : Req) (hrq : rq ∈ s.reqs) (hlive : rq.cancelled = false) :
+    (step cfg s (.cancel rq.id)).2 = [.fire rq.serial rq.id (.err .cancelled)] := by
+  have hany : s.reqs.any (fun r => r.id == rq.id && !r.cancelled) = true := by
+    rw [List.any_eq_true]; exact ⟨rq, hrq, by simp [hlive]⟩
+  simp only [step, hany, if_true, filter_id_live s.reqs h.ids rq hrq hlive, List.map_cons, List.map_nil]
+
+theorem trace_append (cfg : Cfg) (s : St) (a b : List Ev) :
+    trace cfg s (a ++ b) = trace cfg s a ++ trace cfg (run cfg s a) b := by
+  induction a generalizing s with
+  | nil => rfl
+  | cons e es ih => simp only [List.cons_append, trace, run, ih]
+
 theorem rem_eq (reqs : List Req) (id : Int) :
     ((reqs.map (fun r => if r.id == id then { r with cancelled := true } else r)).filter (fun r => !r.cancelled)).map
       (fun r => { r with sent := false }) =
